@@ -377,6 +377,8 @@ class PVLParser(object):
                             )
                             if not keep_parsing:
                                 raise ve
+                        except (LexerError, ParseError):
+                            raise
                         except Exception:
                             # The Begin-Aggregation-Statement (and maybe
                             # more) has been consumed, so callers must
